@@ -517,6 +517,9 @@ func (s *Module) AddBlock(block *block.Block) error {
 		if !block.MerkleRoot.Equals(merkle) {
 			return fmt.Errorf("invalid block: MerkleRoot mismatch: expected %s, got %s", merkle.StringLE(), block.MerkleRoot.StringLE())
 		}
+		if block.HasDuplicateTransactions() {
+			return errors.New("invalid block: duplicate transactions")
+		}
 	}
 	expectedH := s.bc.GetHeaderHash(block.Index)
 	if !block.Hash().Equals(expectedH) {
